@@ -34,8 +34,11 @@ def plan(tier, seed):
 def make_case(spec, i):
     info = catalog.info(spec["cls"])
     r = gen.rng_for(spec["seed"], "C16", spec["cls"], i)
+    ctx = None
+    if info.buffered:
+        ctx = r.choice([None, "obj", "backend", "obj_in_backend"])
     return {"cls": info.name, "seed": [spec["seed"], "C16", spec["cls"], i], "n": 14, "stratum": "default",
-            "probes": [r.choice(PROBES) for _ in range(14)]}
+            "probes": [r.choice(PROBES) for _ in range(14)], "ctx": ctx}
 
 
 def hostile(x, seen=None):
@@ -88,6 +91,22 @@ class Ctx:
         self.b = self.res_b.new_handle()
         self.touched = 0
         self.probes_done = 0
+        # buffered classes: the probes may run inside buffered contexts (values are then kept in the
+        # buffer, not re-read from the file, so aliasing is not hidden by a reload)
+        self.ctxs = []
+        mode = case.get("ctx")
+        cls = self.info.cls()
+        if mode in ("backend", "obj_in_backend"):
+            self.ctxs.append(cls.buffer_backend())
+        if mode in ("obj", "obj_in_backend"):
+            self.ctxs += [self.a.buffered, self.b.buffered]
+        for cm in self.ctxs:
+            cm.__enter__()
+
+    def leave(self):
+        for cm in reversed(self.ctxs):
+            cm.__exit__(None, None, None)
+        self.ctxs = []
 
     def snap(self):
         return (self.res.probe(), self.res_b.probe())
@@ -319,7 +338,26 @@ def run_case(case):
                             "detail": traceback.format_exc()[-1200:], "case": case})
                 break
             c.probes_done += 1
+        if not vio and c.ctxs:
+            # leaving the contexts flushes: what reaches the files must be what the collections showed
+            try:
+                before = c.read()
+                c.leave()
+                after_res, after_read = c.snap(), c.read()
+                for i in (0, 1):
+                    if model.compare(after_res[i], before[i]) != "ok" or model.compare(after_read[i], before[i]) != "ok":
+                        raise Violation("alias_flush", c.probes_done,
+                                        f"after leaving the buffered contexts collection {'ab'[i]} / its file hold "
+                                        f"{after_read[i]!r} / {after_res[i]!r}, inside the context it showed {before[i]!r}",
+                                        {"cls": c.info.name, "family": c.info.family, "kind": "alias_flush"})
+            except Violation as v:
+                vio.append({"sig": v.sig, "detail": str(v), "case": case})
     finally:
+        try:
+            c.leave()
+        except Exception:  # noqa: BLE001
+            pass
+        catalog.reset_class_state(c.info.cls())
         shutil.rmtree(c.scratch, ignore_errors=True)
     return vio, c
 
